@@ -27,10 +27,15 @@ structure St (α : Type) where
 def swapIfNeeded (s : St α) : St α :=
   if absv s.fa < absv s.fb then { s with a := s.b, b := s.a, fa := s.fb, fb := s.fa } else s
 
+/-- `_opposite_signs(x, y)`: `(x < 0 < y) or (y < 0 < x)` — the sign test that replaced `x * y < 0`
+(whose product underflows in binary64 when both ordinates are tiny). -/
+def oppSign (x y : α) : Bool :=
+  (decide (x < 0) && decide (0 < y)) || (decide (y < 0) && decide (0 < x))
+
 /-- `__init__`; `none` = one of the two `assert`s fails. -/
 def init (start stop fStart fEnd eps : α) : Option (St α) :=
   if ¬ (start ≤ stop) then none
-  else if ¬ (fStart * fEnd < 0) then none
+  else if ¬ (oppSign fStart fEnd = true) then none
   else
     let s0 : St α := { eps := eps, a := start, b := stop, fa := fStart, fb := fEnd,
                        c := start, d := start, fc := fStart, bisection := true, next := none }
@@ -65,7 +70,7 @@ def divZero (s : St α) : Bool :=
 def interpDx (s : St α) : α := if useSecant s then secantDx s else iqiDx s
 
 /-- The five-clause test that rejects the interpolated step. -/
-def useBisect (s : St α) (dx : α) : Bool :=
+def useBisect5 (s : St α) (dx : α) : Bool :=
   let delta := absv (2 * s.eps * s.b)
   let adx := absv dx
   let deltaBC := absv (s.b - s.c)
@@ -76,6 +81,12 @@ def useBisect (s : St α) (dx : α) : Bool :=
   || (!s.bisection && decide (adx ≥ deltaCD / 2))
   || (s.bisection && decide (deltaBC < delta))
   || (!s.bisection && decide (deltaCD < delta))
+
+/-- `math.isnan(dx)`: the only binary64 value that is not `≤` itself (never true in an ordered field). -/
+def isNan (dx : α) : Bool := !decide (dx ≤ dx)
+
+/-- The whole test of `get_next_abscissa`: a NaN interpolation (overflow) or one of the five clauses. -/
+def useBisect (s : St α) (dx : α) : Bool := isNan dx || useBisect5 s dx
 
 /-- The step actually taken from `b`. -/
 def stepDx (s : St α) : α :=
@@ -91,7 +102,7 @@ def getNext (s : St α) : St α × α :=
 
 /-- Interval update of `provide_ordinate` (before the swap). -/
 def updateInterval (s : St α) (x y : α) : St α :=
-  if s.fa * y < 0 then { s with b := x, fb := y } else { s with a := x, fa := y }
+  if oppSign s.fa y then { s with b := x, fb := y } else { s with a := x, fa := y }
 
 /-- `provide_ordinate` (the equality assert is on the caller side: the model is always
 called with the abscissa it handed out). -/
